@@ -50,7 +50,7 @@ CHECKS = {
   "Lexer-class faults are strict under multi-byte padding; parser/resolver-class faults under multi-byte padding are the recorded byte-offset finding. Faults inside f-/s-string placeholders (with escape sequences around) are included; the span of `Unknown name X` must cover X. Multi-file projects are not generated.", "DESIGN.md §3 C13"),
  "C02": ("model",
   "exhaustive (parent, child, side) operator table + proptest random typed expression trees, each evaluated by SQLite over a cross-product value table against a reference scalar evaluator of the intended tree + the same trees under ten more dialects executed on SQLite whenever SQLite prepares the text + a shared-operand mode (right operand derived as a column and referenced twice)",
-  "Every type-correct (parent operator, child operator, left|right) combination (exhaustive within that table) and random typed trees to depth 5 are printed with the parentheses the documented table requires, compiled for sqlite/generic, evaluated by SQLite on all 675 operand combinations of the value domain and compared per row with the reference evaluator.",
+  "Every type-correct (parent operator, child operator, left|right) combination (exhaustive within that table) and random typed trees to depth 5 are printed with the parentheses the documented table requires, compiled for sqlite/generic (the exhaustive table also for postgres, duckdb, mssql, clickhouse; the random trees for all 12 dialects, executed whenever SQLite prepares the text), evaluated by SQLite on all 675 operand combinations of the value domain and compared per row with the reference evaluator.",
   MODEL_NOTE + " The printer is independent of prqlc's formatter; a parser mis-binding therefore shows as a value difference.", "DESIGN.md §3 C02"),
  "C03": ("model",
   "proptest sort/take-biased program generation + differential execution (tie-class sequence oracle) + metamorphic slice invariant + DISTINCT ON order oracle for grouped `sort | take 1` under postgres / duckdb / clickhouse / redshift (14 contexts)",
